@@ -166,6 +166,7 @@ def _plan(tier):
         P.append(("trial", dict(driver="Isotension", table="cell", n=2, fixed=(0,), check=True), R + ("failed",)))
         for ck in ("stateless", "neighbourlist"):
             P.append(("trial", dict(driver="Canonical", table="d", n=2, fixed=(), check=False, calc=ck), R))
+    P.append(("trial", dict(driver="GrandCanonical", table="e", n=2, fixed=(), check=False), (), "atoms-restored-exactly"))
     return P
 
 
